@@ -146,11 +146,14 @@ type asyncQ struct {
 	q *async.Q
 }
 
-func (a *asyncQ) Add(v int) string         { return code(a.q.Add(v), async.ErrClosed, async.ErrFull) }
-func (a *asyncQ) AddPrior(v int) string    { return code(a.q.AddPrior(v), async.ErrClosed, async.ErrFull) }
-func (a *asyncQ) Pop() (int, string)       { v, e := a.q.Pop(); return val(v, e, async.ErrClosed) }
-func (a *asyncQ) PopAnyway() (int, string) { v, e := a.q.PopAnyway(); return val(v, e, async.ErrClosed) }
-func (a *asyncQ) Close()                   { a.q.Close() }
+func (a *asyncQ) Add(v int) string      { return code(a.q.Add(v), async.ErrClosed, async.ErrFull) }
+func (a *asyncQ) AddPrior(v int) string { return code(a.q.AddPrior(v), async.ErrClosed, async.ErrFull) }
+func (a *asyncQ) Pop() (int, string)    { v, e := a.q.Pop(); return val(v, e, async.ErrClosed) }
+func (a *asyncQ) PopAnyway() (int, string) {
+	v, e := a.q.PopAnyway()
+	return val(v, e, async.ErrClosed)
+}
+func (a *asyncQ) Close() { a.q.Close() }
 func (a *asyncQ) Has(op string) bool {
 	switch op {
 	case "add", "addprior", "pop", "popanyway", "close":
@@ -186,15 +189,23 @@ type mQ struct {
 	q *mq.MQ
 }
 
-func (a *mQ) Add(v int) string          { return code(a.q.AddReq(v), mq.ErrClosed, mq.ErrReqQFull, mq.ErrCtrlQFull) }
-func (a *mQ) AddPrior(v int) string     { return code(a.q.AddPriorReq(v), mq.ErrClosed, mq.ErrReqQFull, mq.ErrCtrlQFull) }
-func (a *mQ) AddCtrl(v int) string      { return code(a.q.AddCtrl(v), mq.ErrClosed, mq.ErrCtrlQFull, mq.ErrReqQFull) }
-func (a *mQ) AddPriorCtrl(v int) string { return code(a.q.AddPriorCtrl(v), mq.ErrClosed, mq.ErrCtrlQFull, mq.ErrReqQFull) }
-func (a *mQ) Pop() (int, string)        { v, e := a.q.Pop(); return val(v, e, mq.ErrClosed) }
-func (a *mQ) PopAnyway() (int, string)  { v, e := a.q.PopAnyway(); return val(v, e, mq.ErrClosed) }
-func (a *mQ) Close()                    { a.q.Close() }
-func (a *mQ) TryClose() bool            { return a.q.TryClose() }
-func (a *mQ) TryClear() bool            { return a.q.TryClear() }
+func (a *mQ) Add(v int) string {
+	return code(a.q.AddReq(v), mq.ErrClosed, mq.ErrReqQFull, mq.ErrCtrlQFull)
+}
+func (a *mQ) AddPrior(v int) string {
+	return code(a.q.AddPriorReq(v), mq.ErrClosed, mq.ErrReqQFull, mq.ErrCtrlQFull)
+}
+func (a *mQ) AddCtrl(v int) string {
+	return code(a.q.AddCtrl(v), mq.ErrClosed, mq.ErrCtrlQFull, mq.ErrReqQFull)
+}
+func (a *mQ) AddPriorCtrl(v int) string {
+	return code(a.q.AddPriorCtrl(v), mq.ErrClosed, mq.ErrCtrlQFull, mq.ErrReqQFull)
+}
+func (a *mQ) Pop() (int, string)       { v, e := a.q.Pop(); return val(v, e, mq.ErrClosed) }
+func (a *mQ) PopAnyway() (int, string) { v, e := a.q.PopAnyway(); return val(v, e, mq.ErrClosed) }
+func (a *mQ) Close()                   { a.q.Close() }
+func (a *mQ) TryClose() bool           { return a.q.TryClose() }
+func (a *mQ) TryClear() bool           { return a.q.TryClear() }
 func (a *mQ) Has(op string) bool {
 	switch op {
 	case "add", "addprior", "addctrl", "addpriorctrl", "pop", "popanyway", "close", "tryclose", "tryclear":
